@@ -80,6 +80,7 @@ def run_pool(fn: Callable[[dict], Any], items: List[dict], pid: str, pre: Option
     out: List[Any] = []
     pre_out: List[Any] = []
     t0 = time.time()
+    items = sorted(items, key=_cost, reverse=True)        # expensive programs first: no long tail on one worker
     with get_context("fork").Pool(nproc) as pool:
         for f, args in pre or []:
             pre_out.append(pool.apply(f, args))
@@ -90,6 +91,23 @@ def run_pool(fn: Callable[[dict], Any], items: List[dict], pid: str, pre: Option
             if progress and i % 200 == 0:
                 print(f"[{pid}] {i}/{len(items)} {time.time() - t0:.0f}s", file=sys.stderr, flush=True)
     return pre_out, out
+
+
+def _cost(item: dict) -> int:
+    """Rough cost estimate of a program (only used to order the work)."""
+    t = item.get("term")
+    if t is None:
+        return 0
+    c = 0
+    likes = concat = 0
+    for x in G.subterms(t):
+        if x[0] == "call":
+            c += 2
+            likes += x[1] in G.STR_FUNCS_BOOL
+            concat += x[1] in ("concat", "substring")
+        elif x[0] == "lambda":
+            c += 4
+    return c + 10 * likes * (1 + concat)
 
 
 def _num(name: str) -> int:
@@ -159,6 +177,9 @@ def ingest(run: Run, results: List[dict], classify: Callable[[dict], str], label
                         "odata_keeps_row": w.get("odata_keeps_row"), "other": {k: w[k] for k in ("other_backend", "other_filter", "other_sql", "other_result") if k in w} or None,
                         "what": best["what"],
                         "more_filters": sorted({r["witness"].get("filter", r["filter"]) for r in lst}, key=lambda x: (len(x), x))[1:20]}
-    return {"obligation_verdicts": counts, "violation_classes": minimal, "refused_or_crashed": refused,
+    slow = sorted(results, key=lambda r: -r.get("solver_s", 0.0))[:8]
+    return {"slowest_obligations": [{"filter": r.get("filter"), "ob": r["ob"], "backend": r.get("backend"), "status": r["status"],
+                                     "solver_s": r.get("solver_s", 0.0)} for r in slow],
+            "obligation_verdicts": counts, "violation_classes": minimal, "refused_or_crashed": refused,
             "foreign_exceptions": crashes, "outside_encoded_fragment": dict(sorted(outside.items(), key=lambda kv: -kv[1])[:25]),
             "n_outside": sum(outside.values())}
